@@ -119,7 +119,7 @@ func c33_encode(r *verifx.Rng, key string, style int) string {
 }
 
 func c33_bucketName(r *verifx.Rng, caseNo, opNo int) string {
-	switch r.Intn(5) {
+	switch r.Intn(6) {
 	case 0:
 		return fmt.Sprintf("c%d-%d", caseNo, opNo)
 	case 1:
@@ -128,6 +128,8 @@ func c33_bucketName(r *verifx.Rng, caseNo, opNo int) string {
 		return fmt.Sprintf("%dx%d.my-bucket.v2", caseNo, opNo)
 	case 3:
 		return fmt.Sprintf("s3.c%d-%d", caseNo, opNo) // starts like the endpoint
+	case 4:
+		return fmt.Sprintf("a.%s.b%dx%d", c33ApiEp, caseNo, opNo) // the endpoint in the middle of the bucket name
 	}
 	return fmt.Sprintf("localhost.c%d.n%d", caseNo, opNo)
 }
@@ -187,7 +189,7 @@ func genC33Case(r *verifx.Rng, caseNo int) c33Case {
 		}
 		c.api = append(c.api, op)
 	}
-	if r.Chance(1, 8) {
+	if r.Chance(1, 4) {
 		web := fmt.Sprintf("web%d", caseNo)
 		custom := fmt.Sprintf("www.c%d.example.com", caseNo)
 		c.siteBuckets = []string{web, custom}
